@@ -314,6 +314,11 @@ func (c02) Run(tp *Tape, opt RunOpt) *RunOut {
 		nThreads = 2 + tp.Draw(LaneWork, 3)
 	}
 	cfg := SimCfg{Q: []int{1, 2, 4, 8, 32}[tp.Draw(LaneWork, 5)], StarveID: -1, FullLog: opt.Full}
+	if tp.Chance(LaneWork, 1, 4) {
+		// PCT policy instead of the random walk: priorities with 0-2 change points
+		cfg.PCTDepth = 1 + tp.Draw(LaneWork, 3)
+		cfg.PCTSpan = []int{30, 120, 600}[tp.Draw(LaneWork, 3)]
+	}
 	s := NewSim(tp, cfg)
 	h := &Harness{S: s}
 	e := NewEnv()
